@@ -308,11 +308,12 @@ class Check:
                 acc += weight(ev)
             if cur:
                 chunks.append(cur)
-        counter = [0]
+        import itertools
+        from concurrent.futures import ThreadPoolExecutor
+        counter = itertools.count(1)
 
         def run_chunk(evs):
-            counter[0] += 1
-            path = os.path.join(self.work, f"{module}-{label}-{counter[0]}.ndjson")
+            path = os.path.join(self.work, f"{module}-{label}-{next(counter)}.ndjson")
             with open(path, "w") as f:
                 for ev in evs:
                     f.write(json.dumps(ev, separators=(",", ":")) + "\n")
@@ -361,10 +362,11 @@ class Check:
             settle(gs[:len(gs) // 2])
             settle(gs[len(gs) // 2:])
 
-        for ci, evs in enumerate(chunks):
-            if not evs:
-                continue
-            r = run_chunk(evs)
+        todo = [evs for evs in chunks if evs]
+        # the chunks are independent TLC runs (one JVM each, one worker): up to six at a time, verdicts collected in order
+        with ThreadPoolExecutor(max_workers=max(1, min(6, len(todo)))) as pool:
+            results = list(pool.map(run_chunk, todo))
+        for evs, r in zip(todo, results):
             if r.ok:
                 collect(evs, r)
                 continue
@@ -453,6 +455,7 @@ class Check:
         cov = dict(self.cov)
         cov["known_findings_seen"] = [k["signature"] for k in known]
         cov["notes"] = self.notes
+        cov["time_in_tlc_s"] = round(sum(r_.get("wall_s", 0) for r_ in cov.get("tlc_runs", [])), 1)     # the rest is the driver (the library under test)
         if not cov["samples"]:
             cov["samples"] = ["(none)"]
         cov["samples"] = cov["samples"][:6]
